@@ -72,10 +72,10 @@ PROPS = {
             'the inference from "status is never reset on an unwind path" to "no partial result is ever readable" is a written argument',
         ]),
     'C06': dict(
-        units=['nodepred', 'heaps', 'var', 'heightwalk'], level='other',
+        units=['nodepred', 'heaps', 'var', 'heightwalk', 'cutoffs'], level='other',
         replays=[],
         uncovered=[
-            'maybe_change_value / maybe_change_value_manual / child_changed bodies (interleaved writes on several nodes): frame obligations only',
+            'the parent-notification loops of maybe_change_value_manual and child_changed (which parents are told, in which order): frame obligations only; the cutoff consultation in maybe_change_value and in the map_ref arm of child_changed is under contract (unit cutoffs)',
             'the MapRef did_change flag over time (a known history-dependent defect is recorded in DESIGN.md section 5 as not decidable here)',
         ]),
     'C05': dict(
@@ -101,6 +101,7 @@ LEMMA_PROPS = {
     'edges': {'*': ['C11']},
     'nodepred': {'*': ['C06', 'C05']},   # (no lemmas yet)
     'steps': {'*': ['C10']},   # (no lemmas)
+    'cutoffs': {'*': ['C06']},   # (no lemmas)
 }
 
 NOT_APPLICABLE = {
